@@ -362,7 +362,12 @@ func (pl *Plugin) NominateReservation(ctx context.Context, cycleState fwktype.Cy
 	}
 
 	if len(reservationInfos) == 1 && state.hasAffinity {
-		return reservationInfos[0], nil
+		// The shortcut must not bypass the allocate-once gate of FilterNominateReservation: the matchable index
+		// may still hold an allocate-once reservation that another pod has just allocated.
+		if rInfo := reservationInfos[0]; !rInfo.IsAllocateOnce() || rInfo.GetAllocatedPods() == 0 {
+			return rInfo, nil
+		}
+		return nil, nil
 	}
 
 	rInfo := pl.GetNominatedReservation(pod, nodeName)
